@@ -45,7 +45,7 @@ func c04Opts() bridge.GenOpts {
 	o := poolOpts
 	o.Weights = map[string]int{"xtick": 14, "send2": 10, "cancel": 10, "burst": 1, "reqbatch": 10}
 	o.EthTimeout = []uint64{60000, 60000, 150000}
-	o.TimeoutMs = []uint64{20000, 60000, 86400000 - 1}
+	o.TimeoutMs = []uint64{20000, 60000, 20001, 86400000 - 1}
 	return o
 }
 
@@ -104,7 +104,7 @@ func TestC12(t *testing.T) {
 	o := poolOpts
 	o.Bursts = false
 	o.Weights = map[string]int{"cancel": 16, "transfer": 10, "block": 22}
-	o.TimeoutMs = []uint64{20000, 60000}
+	o.TimeoutMs = []uint64{20000, 60000, 20001, 60001}
 	(&pbt.Check{
 		ID:   "C12",
 		Rule: "histories biased to cancels (own/foreign sender, batched, unknown, repeated ids), cross-chain transfers and block times around the outgoing timeout; non-trivial = a refund of a cross-chain transfer, or a cancel of a batched id, or a repeated cancel; distinct = distinct case JSON",
@@ -173,7 +173,7 @@ func c01Opts() bridge.GenOpts {
 	o.Holders = true
 	o.Weights = map[string]int{"deposit": 16, "transfer": 14, "send": 26, "xexec": 14, "cancel": 8, "send2": 3, "byz": 7, "xround": 5}
 	o.MaxVals = 5
-	o.TimeoutMs = []uint64{20000, 60000, 86400000 - 1}
+	o.TimeoutMs = []uint64{20000, 60000, 20001, 86400000 - 1}
 	return o
 }
 
